@@ -3,4 +3,4 @@
 From Coq Require Import Extraction ExtrOcamlBasic ZArith QArith List.
 From Acme.C17 Require Import Model.
 Extraction Language OCaml.
-Extraction "extracted/c17_model.ml" frame_bits bps bus_msgs calculate_bus_load session.
+Extraction "extracted/c17_model.ml" plain frame_bits bps bus_msgs calculate_bus_load session.
